@@ -328,6 +328,35 @@ Definition C10_ok (o : obs) : bool :=
   ok_inside o && ok_complete o && ok_files_inside o && ok_files_distinct o && ok_separate o.
 
 (* ------------------------------------------------------------------------ *)
+(** * Submission: where the job of an instance is started
+
+    [_StepRecord._execute] hands [self.workspace.value] to [adapter.submit] as
+    [cwd]; every back-end has to start the job THERE: the [cwd=] keyword of the
+    process it launches (local: the script itself; Slurm / LSF: the directory
+    option [-D] / [--chdir] / [-cwd] of sbatch / bsub, which overrides the
+    directory sbatch / bsub itself runs in), Flux: [jobspec.cwd].  The job's
+    stdout / stderr files (header [--output] / [-o] / [-e] lines, jobspec
+    attributes) are mostly relative names: they land where the job runs.
+    [so_cwd] is the effective working directory of the started job ([None]:
+    nothing fixes it -- the job inherits the conductor's directory). *)
+Record sobs := mksobs {
+  so_ws : str;               (* the instance's workspace *)
+  so_cwd : option str;       (* effective working directory of the started job *)
+  so_outs : list str         (* its stdout / stderr paths, relative or absolute *)
+}.
+
+Definition submit_ok (o : sobs) : bool :=
+  match so_cwd o with
+  | None => false
+  | Some d =>
+      npath_eqb (npath d) (npath (so_ws o)) &&
+      forallb (fun f => inside (so_ws o) (join2 d f)) (so_outs o)
+  end.
+
+(** the model: the job runs in the workspace, output files are plain names *)
+Definition model_sobs (ws : str) (names : list str) : sobs := mksobs ws (Some ws) names.
+
+(* ------------------------------------------------------------------------ *)
 (** * Hygiene (decidable form) and the known-finding signatures *)
 
 Definition is_digit (c : N) : bool := N.leb 48 c && N.leb c 57.
